@@ -75,7 +75,7 @@ def gen_case(rng):
             "has_store": rng.random() < 0.85, "graph_key": rng.choice(["graph", "graph", "gel"]), "ndeltas": rng.randint(0, 3),
             # an older snapshot of another agent in the same directory: [file-name stem, seconds older]
             # the same agent / version written once before with ANOTHER state (a re-snapshot without a version bump)
-            "prewrite_same_version": rng.random() < 0.4,
+            "prewrite_same_version": rng.random() < 0.4, "booted_first": rng.random() < 0.3,
             "older_sibling": rng.choice([None, ["zz-older", 0.5], ["0-older", 0.5], ["zz-older", 0.004], ["zz-older", 3.0], ["~older", 0.25]])}
 
 
@@ -171,6 +171,21 @@ def check_case(case, sess: Session):
         state = {case["graph_key"]: gel, "version_etag": case["version"]}
         if case["has_store"]:
             state["store"] = st
+        if case.get("booted_first"):
+            # the state went through the boot loader on the (still empty) directory before the runtime filled its graph: the
+            # loader installs its own empty containers, the runtime then replaces / fills state["graph"]
+            booted = {"version_etag": None}
+            if case["has_store"]:
+                booted["store"] = st
+            try:
+                S.load_latest_snapshot(ctx, booted)
+            except Exception as ex:
+                sess.violation("load-raises:" + type(ex).__name__, case, repr(ex)[:200])
+                return
+            booted["graph"] = gel
+            booted["version_etag"] = case["version"]
+            state = booted
+            sess.count("states_booted_on_an_empty_directory_first")
         deltas = [ProposedDelta("node", f"n:{i}", "weight", 0.1 * i, op_idx=i, idx=i) for i in range(case["ndeltas"])]
         gel0 = copy.deepcopy(gel)
         sess.evaluations += 1
